@@ -49,7 +49,7 @@ def rule_M1(ctx, fx):
                 if e.kind != "LW" or e.obj != obj or id(e.node) in seen:
                     continue
                 seen.add(id(e.node))
-                inst = "%s: %s [%s]" % (fi.qualname.split(".", 1)[-1] if False else _short(fi), u(e.node)[:90], e.what)
+                inst = "%s: %s [%s]" % (_short(fi), u(e.node)[:90], e.what)
                 where = fi.where(e.node)
                 if id(e.node) not in bad_nodes:
                     ctx.ok("M1", inst, where, "followed by a refresh of `%s` on every path" % obj)
@@ -125,6 +125,12 @@ def _final_value(fi, ex, attr):
             v = n.value
             if isinstance(v, ast.Attribute) and v.attr == attr and isinstance(v.value, ast.Name) and v.value.id == me:
                 aliases.append(n.targets[0].id)
+    for n in walk_no_nested(fi.node):
+        if isinstance(n, ast.Call):
+            outs = [k.value for k in n.keywords if k.arg == "out"] + (n.args[:1] if last_name(n) == "copyto" else [])
+            for o in outs:
+                if (isinstance(o, ast.Name) and o.id in aliases) or (isinstance(o, ast.Attribute) and o.attr == attr and isinstance(o.value, ast.Name) and o.value.id == me):
+                    raise AnalysisError("M3: %s updates self.%s through %s, an in-place primitive the extractor does not model" % (fi.qualname, attr, u(n)[:60]))
     vals = list(stores)
     for name in aliases:
         aug = [n for n in walk_no_nested(fi.node) if isinstance(n, ast.AugAssign) and isinstance(n.target, ast.Name) and n.target.id == name]
